@@ -256,7 +256,14 @@ func normSummary(s []Text) []Text {
 // Where the behaviour is not determined by the property (which of several records with the
 // target date is used, where a record goes in an unsorted file, which of several equally dated
 // previous records --resume falls back to) every acceptable outcome is returned.
+// Unspecified is set by Apply when the property texts leave the outcome of the command open (the
+// command may fail, or succeed in a way the model does not predict): `switch` when only yesterday's
+// record has an open range (klog gives `stop` a fallback there; the properties name it for stop
+// only), and `create` for a date that already has a record. Callers then assert nothing for the step.
+var Unspecified bool
+
 func Apply(d Doc, c Cmd, env Env) (results []Doc, reject bool, mayReject bool) {
+	Unspecified = false
 	results, reject, mayReject = apply(d, c, env)
 	return
 }
@@ -270,7 +277,8 @@ func apply(d Doc, c Cmd, env Env) (results []Doc, reject bool, mayReject bool) {
 	case "create":
 		r := newRecord(day, env, c.Should, c.Summary)
 		docs, _ := withNewRecord(d, r)
-		return docs, false, false
+		// a second record for a date that has one: klog adds it; refusing it would be as good
+		return docs, false, len(recordsAt(d, day)) > 0
 
 	case "track":
 		if c.Entry == nil {
@@ -336,13 +344,25 @@ func apply(d Doc, c Cmd, env Env) (results []Doc, reject bool, mayReject bool) {
 			cands = append(cands, cand{ri, day})
 		}
 		automatic := c.DateSel != "explicit" && c.Time == nil
-		if len(cands) == 0 && c.Kind == "stop" && automatic && validDay(day-1) {
-			for _, ri := range recordsAt(d, day-1) {
-				cands = append(cands, cand{ri, day - 1})
+		fallback := false
+		if len(cands) == 0 && automatic && validDay(day-1) {
+			if c.Kind == "stop" {
+				for _, ri := range recordsAt(d, day-1) {
+					cands = append(cands, cand{ri, day - 1})
+				}
+				fallback = len(cands) > 0
+			} else {
+				for _, ri := range recordsAt(d, day-1) {
+					if d.Records[ri].OpenIndex() >= 0 {
+						Unspecified = true // a fallback for switch is neither promised nor excluded
+					}
+				}
 			}
 		}
 		var out []Doc
-		failAny := false
+		// the fallback is stated for "no record for today"; with a date flag (--today, --yesterday,
+		// --tomorrow) klog applies it as well, which the property neither demands nor forbids
+		failAny := fallback && c.DateSel != ""
 		for _, cd := range cands {
 			r := d.Records[cd.ri]
 			oi := r.OpenIndex()
@@ -373,8 +393,21 @@ func apply(d Doc, c Cmd, env Env) (results []Doc, reject bool, mayReject bool) {
 			e.Kind = KRange
 			e.End = Time{Off: off}
 			if c.Kind == "stop" {
-				e.Summary = appendSummary(e.Summary, c.Summary)
+				base := e.Summary
+				e.Summary = appendSummary(base, c.Summary)
 				out = append(out, nd)
+				// "with the extra summary appended": when the line already ends in a blank, joining
+				// without a further blank is an equally good reading
+				if len(base) > 0 && len(c.Summary) > 0 && c.Summary[0] != "" {
+					if last := string(base[len(base)-1]); strings.HasSuffix(last, " ") || strings.HasSuffix(last, "\t") {
+						alt := cloneDoc(nd)
+						sm := append([]Text(nil), base...)
+						sm[len(sm)-1] = Text(last + string(c.Summary[0]))
+						sm = append(sm, c.Summary[1:]...)
+						alt.Records[cd.ri].Entries[oi].Summary = sm
+						out = append(out, alt)
+					}
+				}
 				continue
 			}
 			closed := nd.Records[cd.ri]
